@@ -1,6 +1,8 @@
 pub mod client_codec;
 pub mod client_sm;
 pub mod decode;
+pub mod ffi;
+pub mod filter;
 pub mod framing;
 pub mod server_family;
 pub mod sessions;
@@ -23,6 +25,7 @@ pub fn run(id: &str, tier: &str) -> i32 {
         "C13" => client_sm::check_c13(tier),
         "C14" => client_sm::check_c14(tier),
         "C15" => sessions::check_c15(tier),
+        "C16" => filter::check_c16(tier),
         "C17" => server_family::check_c17(tier),
         "C20" => decode::check_c20(tier),
         _ => {
@@ -66,6 +69,7 @@ pub fn replay(path: &str) -> i32 {
         Some("c20-client") | Some("c20-server") | Some("c20-stream") => decode::replay_c20(scn),
         Some("c09") | Some("c09-probe") => tls::replay_c09(scn),
         Some("c15") => sessions::replay_c15(scn),
+        Some("c16-string") | Some("c16-match") | Some("c16-server") | Some("c16-ffi") => filter::replay_c16(scn),
         Some("client-sm") => client_sm::replay(scn),
         Some("client-stream") => framing::replay_client_stream(scn),
         k => {
